@@ -27,12 +27,16 @@ CLAUSES = {
     24: 'C09_mean_amps: templates_amplitudes / clusters_amplitudes = per-present-id mean of the stored amplitudes',
     25: 'C09_peak_channel: templates_channels / clusters_channels / templates_probes',
     26: 'C09_duration: (argmax - argmin) on the peak channel / rate * 1000',
-    27: 'C09_depths: feature-weighted depths, NaN where the positive part vanishes, None without a full feature store',
+    27: 'C09_depths: feature-weighted depths, NaN where the positive part vanishes, None without a full feature store '
+        '(C09_depths_nocols: a store without pc_feature_ind.npy raises iff it has one row per spike)',
+    28: 'outside the dense reading, outcome only (C09_sparse_channels): with template_ind.npy get_amplitudes_true raises and '
+        '_channels returns the first stored channel of every template',
 }
 TRUSTED = ['np.load/np.save, TemplateModel loading (C04) and cluster_waveforms (C08): the stored arrays are read from the '
            'loaded model before the calls', 'np.matmul / np.bincount / np.unique / np.argmax / np.ravel_multi_index as documented',
            'observed binary64 values are converted to exact rationals and must lie within 2^-48 relative of the exact model value (NaN must be NaN): a few correctly rounded operations in any order are accepted, anything larger is not']
-ASSUMES = ['dense templates; amplitudes.npy present; a feature store, when present, comes with pc_feature_ind.npy',
+ASSUMES = ['dense templates (sparse ones: only the outcome "get_amplitudes_true raises, _channels = first stored channel"); '
+           'amplitudes.npy present; a feature store without pc_feature_ind.npy is judged by outcome only (raises / None)',
            'exact regime: integer stored values (|template| < 2^24, float32-exact), non-negative channel y positions (no '
            'cancellation in the depth sum); unit factor and sampling rate positive and finite',
            'no array axis of length 1 (phylib squeezes every array it loads)']
@@ -50,7 +54,22 @@ def _case(rng, **o):
         'sem': sem, 'factor': o.get('factor', rng.choice(FACTORS)),
         'render': {'id_dtype': o.get('id_dtype', rng.choice(ID_DTYPES)),
                    'tmpl_dtype': o.get('tmpl_dtype', rng.choice(['float32', 'float32', 'float64'])),
-                   'vec2d': o.get('vec2d', rng.random() < 0.2)}}}
+                   'vec2d': o.get('vec2d', rng.random() < 0.2)},
+        # the feature store is written WITHOUT pc_feature_ind.npy (sparse_features.cols is None after loading)
+        'no_ind': bool(o.get('no_ind', rng.random() < 0.06)) and sem['features'] is not None}}
+
+
+def _sparse(rng):
+    """sparse templates (template_ind.npy): outside the dense reading, outcome only"""
+    sem = G.gen(rng, curated=False, features='none', zero_template=False)
+    nc = sem['n_channels']
+    cols = []
+    for _ in range(sem['n_templates']):
+        r = list(range(nc))
+        rng.shuffle(r)
+        cols.append(r)
+    return {'kind': 'sparse', 'inp': {'sem': sem, 'cols': cols, 'render': {'id_dtype': rng.choice(ID_DTYPES), 'tmpl_dtype': 'float32',
+                                                                        'vec2d': False}}}
 
 
 def _big(rng, n):
@@ -94,6 +113,13 @@ def generate(tier, rng):
               dict(wmi='file', div=False), dict(neg_amp=True), dict(probes=True, ties=True), dict(shanks=True, curated=True)]:
         for _ in range(2):
             cases.append(_case(rng, **o))
+    # (b') outside the dense reading, outcome only: feature store without pc_feature_ind.npy (full: raises; subset: None),
+    # sparse templates (get_amplitudes_true raises, _channels = first stored channel)
+    for fk in ('full', 'subset'):
+        for _ in range(2):
+            cases.append(_case(rng, features=fk, no_ind=True))
+    for _ in range(3):
+        cases.append(_sparse(rng))
     # (c) the batch loop of get_depths (50000 spikes per batch): periodic datasets around the batch size
     for n in {'quick': (50001, 100000), 'thorough': (50000, 50001, 99999, 100000, 100001, 150003), 'search': (50001, 100001)}[tier]:
         cases.append(_big(rng, n))
@@ -141,7 +167,11 @@ def run_case(case):
     i = case['inp']
     if case['kind'] == 'depths_big':
         return _run_big(case)
+    if case['kind'] == 'sparse':
+        return _run_sparse(case)
     ds = D.render(i['sem'], None, **i['render'])
+    if i.get('no_ind'):
+        del ds['files']['pc_feature_ind.npy']
     d = tempfile.mkdtemp(prefix='c09_', dir=os.environ.get('VT_WORK') or None)
     try:
         kw = D.materialise(ds, d)
@@ -179,6 +209,28 @@ def run_case(case):
         }
         m.close()
         return ('ok', snap, obs)
+    finally:
+        shutil.rmtree(d, ignore_errors=True)
+
+
+def _run_sparse(case):
+    import numpy as np
+    from phylib.io.model import TemplateModel
+    i = case['inp']
+    ds = D.render(i['sem'], None, **i['render'])
+    cols = i['cols']
+    ds['files']['template_ind.npy'] = D._spec('uint32', [len(cols), len(cols[0])], [v for r in cols for v in r])
+    d = tempfile.mkdtemp(prefix='c09s_', dir=os.environ.get('VT_WORK') or None)
+    try:
+        m = TemplateModel(**D.materialise(ds, d))
+        sc = m.sparse_templates.cols
+        snap = {'cols': None if sc is None else [[int(x) for x in r] for r in np.array(sc)]}
+        obs = {'amp_t': _try(lambda: m.get_amplitudes_true(1.0, use='templates') and None),
+               'amp_c': _try(lambda: m.get_amplitudes_true(1.0, use='clusters') and None),
+               'chan_t': _try(lambda: [int(x) for x in m.templates_channels]),
+               'chan_c': _try(lambda: [int(x) for x in m.clusters_channels])}
+        m.close()
+        return ('sparse', snap, obs)
     finally:
         shutil.rmtree(d, ignore_errors=True)
 
@@ -279,17 +331,26 @@ def encode(case, obs):
         if dep is None:
             return cin, '(ObsBig (Some None))'
         return cin, '(ObsBig (Some (Some %s)))' % _tl_chunked(dep['v'])
+    if obs[0] == 'sparse':
+        if s['cols'] is None:
+            raise ValueError('C09 regime: the sparse dataset did not load as a sparse one')
+        return '(InSparse %s)' % q.zll(s['cols']), '(ObsSparse %s %s %s %s)' % (
+            'true' if _raised(o['amp_t']) else 'false', 'true' if _raised(o['amp_c']) else 'false',
+            _opt(o['chan_t'], q.zl), _opt(o['chan_c'], q.zl))
     if s['tcols']:
         raise ValueError('C09 regime: sparse templates generated')
-    feat = 'None'
+    feat, nocols = 'None', 'None'
     if s['feat'] is not None:
         if s['feat']['cols'] is None:
-            raise ValueError('C09 regime: feature store without pc_feature_ind generated')
-        feat = '(Some (%s, %s))' % (_zlll(s['feat']['data']), q.zll(s['feat']['cols']))
-    cin = '(InModel (mkinp %s %s %s %s %s %s %s %s %s %s %s %s %s %s))' % (
+            if not case['inp'].get('no_ind'):
+                raise ValueError('C09 regime: feature store without pc_feature_ind generated')
+            nocols = '(Some %s)' % q.z(len(s['feat']['data']))
+        else:
+            feat = '(Some (%s, %s))' % (_zlll(s['feat']['data']), q.zll(s['feat']['cols']))
+    cin = '(InModel (mkinp %s %s %s %s %s %s %s %s %s %s %s %s %s %s %s))' % (
         _zlll(s['tdata']), _zlll(s['cdata']), _zll(s['wmi']), q.zl(s['st']), q.zl(s['sc']), _zl(s['amps']),
         q.z(s['nt']), q.z(s['ncl']), _tk(D.tok(float(case['inp']['factor']))), _tk(s['rate']), q.zl(s['probes']),
-        _zll(s['pos']), feat, q.z(s['nspikes']))
+        _zll(s['pos']), feat, q.z(s['nspikes']), nocols)
 
     def amp(x):
         if x['ndim'] != [1, 3, 1]:
@@ -312,6 +373,8 @@ def encode(case, obs):
 def nontrivial(case, obs):
     if obs[0] == 'big':
         return not _raised(obs[2]['depths']) and obs[2]['depths'] is not None
+    if obs[0] == 'sparse':
+        return not _raised(obs[2]['chan_t'])
     return obs[0] == 'ok' and not _raised(obs[2]['amp_t']) and not _raised(obs[2]['amp_c'])
 
 
@@ -321,8 +384,11 @@ def dist(case, obs):
         return ['kind=depths_big', 'big.n_spikes=%d' % i['n'], 'big.period=%d' % i['sem']['n_spikes'],
                 'big.outcome=%s' % (obs[0] if obs[0] != 'big' else ('raised' if _raised(obs[2]['depths']) else 'array'))]
     sem = i['sem']
+    if case['kind'] == 'sparse':
+        return ['kind=sparse_templates', 'sparse.outcome=%s' % (obs[0] if obs[0] != 'sparse' else
+                                                                 'amp_raised=%s' % _raised(obs[2]['amp_t']))]
     o = sem['opts']
-    out = ['curated=%s' % o['curated'], 'empty_ids=%s' % o['empty'], 'wmi=%s' % o['wmi'], 'features=%s' % o['features'],
+    out = ['curated=%s' % o['curated'], 'feature_ind=%s' % ('absent' if i.get('no_ind') else 'present' if sem['features'] else 'n/a'), 'empty_ids=%s' % o['empty'], 'wmi=%s' % o['wmi'], 'features=%s' % o['features'],
            'ties=%s' % o['ties'], 'factor=%s' % i['factor'], 'rate=%s' % int(sem['rate']),
            'id_dtype=%s' % i['render']['id_dtype'], 'tmpl_dtype=%s' % i['render']['tmpl_dtype'],
            'n_spikes=%s' % ('<=5' if sem['n_spikes'] <= 5 else '6-14' if sem['n_spikes'] <= 14 else '15+')]
@@ -350,7 +416,7 @@ def dist(case, obs):
 
 def shrink(case):
     i = case['inp']
-    if case['kind'] == 'depths_big':
+    if case['kind'] in ('depths_big', 'sparse'):
         return
     sem = i['sem']
     for k in range(sem['n_spikes']):
@@ -363,6 +429,8 @@ def shrink(case):
         if sem.get(key) is not None:
             j = copy.deepcopy(i)
             j['sem'][key] = None
+            if key == 'features':
+                j['no_ind'] = False
             yield {'kind': 'dataset', 'inp': j}
     if i['factor'] != 1.0:
         j = copy.deepcopy(i)
@@ -384,6 +452,8 @@ def size(case):
     if case['kind'] == 'depths_big':
         return 10 ** 6 + case['inp']['n']
     sem = case['inp']['sem']
+    if case['kind'] == 'sparse':
+        return 500 + sem['n_spikes'] * 10 + sem['n_templates'] * sem['n_channels']
     return sem['n_spikes'] * 10 + sem['n_templates'] * sem['n_samples_wf'] * sem['n_channels'] + \
         (50 if sem.get('features') else 0) + (30 if sem.get('spike_clusters') else 0)
 
@@ -397,11 +467,19 @@ def repro(case):
                 "v = obs['depths']['v']; k = len(snap['st'])\n"
                 "print([j for j in range(len(v)) if v[j] != v[j %% k]][:10], 'spikes whose depth differs from the depth of the same pattern in the first period')\n"
                 % (case,))
+    if case['kind'] == 'sparse':
+        return ("import sys; sys.path[:0] = ['/verif/harness', '/repo']\n"
+                "from vt import npshim; npshim.setup_process()\n"
+                "from vt.props import c09\n"
+                "tag, snap, obs = c09.run_case(%r)\n"
+                "print('template_ind', snap['cols']); print(obs)\n" % (case,))
     return ("import sys, tempfile; sys.path[:0] = ['/verif/harness', '/repo']\n"
             "from vt import npshim, datasets as D; npshim.setup_process()\n"
             "from phylib.io.model import TemplateModel\n"
             "inp = %r\n"
-            "d = tempfile.mkdtemp(); m = TemplateModel(**D.materialise(D.render(inp['sem'], None, **inp['render']), d))\n"
+            "ds = D.render(inp['sem'], None, **inp['render'])\n"
+            "if inp.get('no_ind'): del ds['files']['pc_feature_ind.npy']\n"
+            "d = tempfile.mkdtemp(); m = TemplateModel(**D.materialise(ds, d))\n"
             "print('spike_templates', m.spike_templates, 'spike_clusters', m.spike_clusters, 'amplitudes', m.amplitudes)\n"
             "for use in ('templates', 'clusters'):\n"
             "    a, t, v = m.get_amplitudes_true(inp['factor'], use=use); print(use, 'spike amps', a, 'template amps', v); print(t)\n"
